@@ -119,6 +119,11 @@ def count_bombs():
             out.append(bytes([131, 80]) + c4 + tail)           # COMPRESSED
             out.append(bytes([131, 80]) + c4 + zlib.compress(b"\x6a"))
             out.append(bytes([131, 112]) + struct.pack(">I", 100) + b"\x01" + bytes(16) + struct.pack(">I", 7) + c4 + b"\x77\x01m" + b"\x61\x01\x61\x02" + pid + tail)  # NEW_FUN_EXT num_free
+        # NEW_FUN_EXT: Size and NumFree are both supplied by the wire; each against the other's boundary values
+        for size in (c, 0, 0xffffffff):
+            for nf in ((c, 0xffffffff) if size == c else (c,)):
+                out.append(bytes([131, 112]) + struct.pack(">I", size & 0xffffffff) + b"\x01" + bytes(16) + struct.pack(">I", 7) + struct.pack(">I", nf & 0xffffffff)
+                           + b"\x77\x01m" + b"\x61\x01\x61\x02" + pid + b"\x61\x01" * 3)
         if c < 65536:
             c2 = struct.pack(">H", c)
             for tail in (b"", b"ab"):
@@ -131,6 +136,10 @@ def count_bombs():
             out.append(bytes([131, 104, c]))
             out.append(bytes([131, 110, c, 0]))
             out.append(bytes([131, 119, c]))
+    # distribution headers: a new atom-cache entry in each of the 8 x 256 slots the flag nibbles can address
+    for seg in range(8):
+        for idx in range(256):
+            out.append(bytes([131, 68, 1, 8 | seg, idx, 1, 97, 82, 0]))
     return out
 
 
